@@ -28,6 +28,18 @@ CHECKS = {
     'C19': ('fault_enumeration', 'runtime monitor: borrow-event trace checker + reference extension filter over real borrower/reader directories',
             'Failure placements x borrower lists (flavours, holdings, errors) x noDeps/genTexts/ignoreErrors/searchers; the trace shows who was offered to which borrower in which order and what was written; part B drives the real PyFileBorrower/AnyFileBorrower over real directories.',
             'Trusted: as C07; real AnyFileBorrower/PyFileBorrower wrap the recording reader so the real flavour check runs.', '5/C19'),
+    'C13': ('fault_enumeration', 'runtime monitor: in-process fault injection at every discovered system-call site of putData() (os/tempfile/py_compile/open proxies) + directory-snapshot oracle; audit-hook filesystem sanitizer for dry runs; concurrent writers with self-describing payloads',
+            'For every writer configuration a discovery run lists the call sites, each site is re-run with each applicable fault kind (errno, error-after-effect, genuine short write); dry-run windows are watched by a sys.addaudithook sanitizer with positive control; 4-8 concurrent writer processes are polled by a reader. Crash points (SIGKILL at each syscall) are syscall-granular and in the thorough tier only.',
+            'Trusted: writer modules reach the OS through their module globals (otherwise the discovery floors make the run inconclusive); one fault per execution.', '5/C13'),
+    'C14': ('exploration', 'runtime monitor: reference variant sets (allowed superset / promised subset, written from the docs) over generated directory trees and nested ZIP archives; URL dispatch table',
+            'Random trees and archives (nesting <=3, duplicate basenames, near-miss names, invalid UTF-8, .index files) x all settings of the four matching options; each lookup of the real FileReader / ZipReader is judged for soundness (file is a variant; exact decoded content; mtime of that file) and completeness (not-found only when no promised variant exists).',
+            'Trusted: os.utime / zipfile date_time give the mtimes; the two reference variant sets encode docs/mibdump.rst.', '5/C14'),
+    'C18': ('exploration', 'runtime monitor: component-wise cover checker on int tuples over histories of incremental index builds (genIndex and MibCompiler.buildIndex with a real FileWriter)',
+            'Histories of 1-5 builds over random results with arcs sharing decimal prefixes; after every build the cover, listing, no-foreign-listing, monotonic-merge and idempotent re-index conditions are evaluated on the parsed index.',
+            'Trusted: json.loads; results are built with the compiler\'s own MibStatus.setOptions.', '5/C18'),
+    'C20': ('exploration', 'runtime monitor: subprocess runs of mibdump.py / mibcopy.py judged by exit code, the tool\'s own parsed report, directory snapshots and an inotify event stream (dry runs), for all permutations of mibcopy sources',
+            'On-disk sets with healthy / missing / broken members and alias files x formats x option combinations; mibcopy is run for every permutation of 2-4 source arguments. Exploration over generated sets; each run is a real CLI process.',
+            'Trusted: the fixed report headings; inotifywait delivers events (proved per window by a probe file and by positive-control runs).', '5/C20'),
 }
 PENDING_REASON = 'check not built yet in this session (work in progress; see DESIGN.md section 5 for the planned monitor)'
 
